@@ -129,7 +129,9 @@ CLAIMS["C04"] = _b(
     "subscribed to the event id or to all events (fanout_exact), non-owner emits are dropped (foreign_emit_dropped); for ALL histories of "
     "subscribe/unsubscribe on an event id the first/last flags that make the broker notify the owner are raised exactly when the "
     "subscriber set changes between empty and non-empty, membership changes only for the acting connection and no empty entry is kept "
-    "(subscribe_transition, unsubscribe_transition, transitions_all_histories; likewise for all-events subscriptions). Agreement of the "
+    "(subscribe_transition, unsubscribe_transition, transitions_all_histories; likewise for all-events subscriptions); when a service is "
+    "destroyed exactly the connections subscribed to one of its events or to the service itself are queued for a ServiceDestroyed "
+    "notification, each once (service_destroyed_audience, service_destroyed_queued_once). Agreement of the "
     "per-connection mirror and ServiceDestroyed fan-out under disconnects is decided by the correspondence runs, and the owner's "
     "client-side record of what it was told to produce (which filters what it emits) by scenario B of the sys harness with real "
     "clients (every proxy subscribed to an event id or to all events of a live service must get what the owner emits): partial there.",
@@ -151,7 +153,8 @@ CLAIMS["C09"] = _b(
     "ending a connection: the channel and bus-listener gauges equal the sizes of the maps, map keys are unique and below the cookie "
     "counter (channel_listener_gauges_all_histories) — using the translator fact that create_channel counts before replying, which is "
     "where the defect fixed in 2be3d48 breaks the proof; run-loop exit condition and shutdown events (finished_iff, "
-    "broker_shutdown_queues_all, idle_shutdown_sets_flag); gauges for connections/objects/services (registry_gauges_all_histories); in "
+    "broker_shutdown_queues_all, idle_shutdown_sets_flag); the turn that handles a broker shutdown ends, from any state, with no "
+    "connection left, nothing deferred and the exit condition of Broker::run true (broker_shutdown_completes); gauges for connections/objects/services (registry_gauges_all_histories); in "
     "every reachable state a call whose caller is no longer connected is marked aborted, so nothing is delivered for it any more "
     "(calls_of_a_removed_connection_are_ended, no_connections_no_live_call; cross-reference invariant of C02); for ALL histories, once "
     "no connection is left all four registry maps, the channel map and the listener map are empty "
